@@ -123,6 +123,30 @@ def float_ladder(op: str, hk: int, tk: int) -> bool:
     return True
 
 
+SEQ = [("eq", "true", True, True), ("eq", "1.0", 1.0, True), ("eq", "1", 1, True), ("eq", "1.0", 1, False),
+       ("eq", "1", 1.0, False), ("eq", "false", False, True), ("eq", "0.0", 0.0, True), ("eq", "0", 0, True),
+       ("ew", ".0", 1.0, True), ("sw", "T", True, True), ("sw", "T", 1.0, False), ("eq", "2", 2, True),
+       ("eq", "2.0", 2.0, True), ("eq", "2", 2.0, False), ("ge", "2", 2.0, True), ("has", ".", 2.0, True),
+       ("has", ".", 2, False)]
+
+
+def sequence(k: int) -> bool:
+    """Any two comparisons made one after the other answer as they would alone (no carried-over state)."""
+    from crosshair import NoTracing
+    k = realize(k)
+    i1, i2 = k % len(SEQ), k // len(SEQ)
+    # executed untraced: the engine replaces some library functions (e.g. functools caches) by models, and carried-over
+    # state is exactly what this query is about; every value here is concrete once k is realised
+    with NoTracing():
+        for idx in (i1, i2, i1):
+            op, term, val, want = SEQ[idx]
+            got = Searches.search_matches(OPS[op], term, val)
+            if got != want:
+                note(first=SEQ[i1][:3], second=SEQ[i2][:3], failing=SEQ[idx][:3], observed=got, expected=want)
+                return False
+    return True
+
+
 def is_boolish(s):
     low = s.lower()
     return low == "true" or low == "false" or s == "None"
@@ -302,6 +326,11 @@ def shards(tier, seed):
             out.append(shard(PID, "float/%s/h%d" % (op, hk), "harness.c12", "float_ladder(%r, %d, tk)" % (op, hk),
                              [("tk", "int")], ["0 <= tk < %d" % len(FLOAT_T)], family="float", budget=300, kind="S",
                              desc="float value %r %s every pooled term incl. ties (selector)" % (FLOAT_H[hk], OPTEXT[op])))
+    nseq = len(SEQ) * len(SEQ)
+    for lo in range(0, nseq, 100):
+        out.append(shard(PID, "sequence/k%03d" % lo, "harness.c12", "sequence(k)", [("k", "int")],
+                         ["%d <= k < %d" % (lo, min(nseq, lo + 100))], family="sequence", budget=600, kind="S",
+                         desc="ordered pairs of comparisons over bool / int / float values that are equal as numbers"))
     text_ops = ["eq", "sw", "ew", "gt", "lt", "ge", "le"]
     terms = TEXT_TERMS if tier == "thorough" else ["ab", "B"]
     qops = text_ops if tier == "thorough" else ["eq", "sw", "gt", "le"]
